@@ -21,7 +21,7 @@ import (
 // metadata extent kinds: size/count/address fields live here
 func isMeta(kind string) bool {
 	switch kind {
-	case "contiguous-data", "chunk", "local-heap-data", "gcol", "fhdb":
+	case "contiguous-data", "chunk", "local-heap-data", "fhdb":
 		return false
 	}
 	return true
@@ -103,6 +103,28 @@ func genMutations(file []byte, n int, seed uint64) []trace.Fault {
 			continue
 		}
 		out = append(out, trace.Fault{Kind: "btree_ladder", Off: int64(e.Start), Len: int64(e.End - e.Start), Keep: rng.Pick(r, []int{12, 40, 60}), Hex: hex.EncodeToString(ptrs)})
+	}
+	// extent sweeps: for a few seeded metadata structures, every aligned 8-byte
+	// and 4-byte field position of the header part gets the extreme values a
+	// length/address check must survive (all ones, the sign bit, just below 2^64)
+	sweeps := 1 + n/200
+	for k := 0; k < sweeps && len(meta) > 0; k++ {
+		e := meta[r.Intn(len(meta))]
+		span := int64(e.End - e.Start)
+		if span > 96 {
+			span = 96
+		}
+		for at := int64(0); at+4 <= span && len(out) < n*2/3; at += 4 {
+			off := int64(e.Start) + at
+			if at%8 == 0 && at+8 <= span && off+8 <= size {
+				for _, v := range []uint64{^uint64(0), 1 << 63, ^uint64(0) - 15} {
+					out = append(out, trace.Fault{Kind: "set_bytes", Off: off, Hex: le(v, 8)})
+				}
+			}
+			if off+4 <= size {
+				out = append(out, trace.Fault{Kind: "set_bytes", Off: off, Hex: le(0xFFFFFFFF, 4)})
+			}
+		}
 	}
 	for len(out) < n {
 		k := r.Intn(10)
